@@ -505,14 +505,6 @@ line_address			(struct frame *		f,
 	unsigned int field_line;
 	unsigned int frame_line;
 
-	if (unlikely (f->sp >= f->sliced_end)) {
-		error (&f->log,
-		       "Out of sliced VBI buffer space (%d lines).",
-		       (int)(f->sliced_end - f->sliced_begin));
-
-		return VBI_ERR_SLICED_BUFFER_OVERFLOW;
-	}
-
 	lofp_to_line (&field, &field_line, &frame_line,
 		      lofp, system);
 
@@ -553,6 +545,9 @@ line_address			(struct frame *		f,
 			if (NULL == rpp || (int8_t) lofp < 0)
 				return -1; /* new_frame */
 		}
+
+		if (unlikely (f->sp >= f->sliced_end))
+			goto overflow;
 
 		if (NULL != rpp) {
 			unsigned int raw_start;
@@ -618,6 +613,9 @@ line_address			(struct frame *		f,
 			}
 		}
 
+		if (unlikely (f->sp >= f->sliced_end))
+			goto overflow;
+
 		f->last_field = field;
 		f->last_field_line = field_line;
 
@@ -628,6 +626,16 @@ line_address			(struct frame *		f,
 	++f->n_data_units_extracted_from_packet;
 
 	return 0; /* success */
+
+ overflow:
+	/* Tested after the new frame checks above, not on entry: the
+	   first line of the next frame must be able to complete a
+	   frame which fills the sliced buffer exactly. */
+	error (&f->log,
+	       "Out of sliced VBI buffer space (%d lines).",
+	       (int)(f->sliced_end - f->sliced_begin));
+
+	return VBI_ERR_SLICED_BUFFER_OVERFLOW;
 }
 
 static void
